@@ -410,15 +410,16 @@ static off64_t _GD_GetBOF(DIRFILE *restrict D, gd_entry_t *restrict E,
       if (!D->error) {
         *ds -= E->EN(phase,shift);
 
-        /* remove whole frames from delta-samples */
-        while (*ds < 0) {
-          *ds += *spf;
-          bof--;
-        }
-
-        while (*ds >= *spf) {
-          *ds -= *spf;
-          bof++;
+        /* remove whole frames from delta-samples (the shift may be huge) */
+        if (*spf > 0 && (*ds < 0 || *ds >= *spf)) {
+          int64_t q = *ds / (int64_t)*spf;
+          int64_t r = *ds % (int64_t)*spf;
+          if (r < 0) {
+            r += *spf;
+            q--;
+          }
+          bof += q;
+          *ds = r;
         }
 
         /* The beginning-of-frame may not be before frame zero */
